@@ -130,6 +130,16 @@ def run(ctx):
                     cases.append((nm, ctx.seed, int(v or 0)))
     else:
         cases = [(n, ctx.seed, v) for n in names for v in range(5)]
+    # "the same seeds" includes seed 0 (a falsy value: `if seed:` instead of `if seed is not None:` falls back to
+    # OS entropy): the scenarios that hand their seed unchanged to a library constructor are also run with it
+    # (all of them in the thorough tier)
+    RAW_SEED = ["datastore_kv_database", "datastore_cached_store_eviction", "datastore_sharded_store",
+                "behavior_population_market", "sketching_collectors", "faults_schedule_pipeline"]
+    for i, n in enumerate(names):
+        if n in RAW_SEED or not ctx.quick:
+            for v in (range(3) if n in RAW_SEED else [i % 3]):
+                if (n, 0, v) not in cases:
+                    cases.append((n, 0, v))
     envs = [ENVS[0], ENVS[2], ENVS[3]] if ctx.quick else ENVS
     jobs = [(n, s, v, hs, prior) for (n, s, v) in cases for (hs, prior) in envs]
     with ThreadPoolExecutor(max_workers=14) as ex:
